@@ -66,6 +66,7 @@ def run_case(cfg):
     try:
         o = make(cfg, d)
         W = cfg["W"]; held = {}; stopped = set(); runs = 0; events = []; viol = None
+        as_copy = random.Random(cfg["hseed"] ^ 0x2545f491).random() < 0.35     # end_trial gets a reconstructed copy, as from the chief/worker layer
         R = cfg["max_retries"]
         cap = 4000
         steps = 0
@@ -85,6 +86,9 @@ def run_case(cfg):
                             t.status = "INVALID"
                         else:
                             t.status = "FAILED"
+                        if as_copy:
+                            from keras_tuner.engine import trial as trial_module
+                            tc = trial_module.Trial.from_state(t.get_state()); tc.status = t.status; t = tc
                         o.end_trial(t)
                     except RuntimeError as e:
                         lc._release(o)
